@@ -214,6 +214,34 @@ def stdlib_fns_with_body():
     return out
 
 
+def stdlib_fn_arities():
+    """name -> number of parameters of every function the standard library defines (foreign or written in Numbat)"""
+    out = {}
+    root = os.path.join(nv.REPO, "numbat", "modules")
+    for d, _, fs in os.walk(root):
+        for f in fs:
+            if not f.endswith(".nbt"):
+                continue
+            text = open(os.path.join(d, f), encoding="utf-8", errors="replace").read()
+            for m in re.finditer(r"^fn\s+([^\W\d]\w*)\s*(?:<[^>\n]*>)?\(", text, re.M | re.UNICODE):
+                depth, k, i, seen = 1, 0, m.end(), False
+                while i < len(text) and depth:
+                    ch = text[i]
+                    if ch in "([<":
+                        depth += 1
+                    elif ch in ")]":
+                        depth -= 1
+                    elif ch == ">" and text[i - 1] != "-":
+                        depth -= 1
+                    elif ch == "," and depth == 1:
+                        k += 1
+                    if depth and not ch.isspace():
+                        seen = True
+                    i += 1
+                out[m.group(1)] = (k + 1) if seen else 0
+    return out
+
+
 def possibly_recursive(text, sess, stdlib):
     defined = set(_FNDEF.findall(text))
     idents = _IDENT.findall(text)
@@ -341,7 +369,19 @@ def boundary_cases(cx, long_session):
     meta = res.cases["META"][0]
     if set(meta["req"]) != GOOD:
         raise nv.ToolError("required outcome set of MC_Overflow differs from the binding table")
-    cases = res.cases.get("CASE", [])
+    cases = []
+    arity = stdlib_fn_arities()
+    for c in res.cases.get("CASE", []):
+        if c["fam"] == "polyarg":
+            # the class is instantiated with every standard-library function of that arity
+            for name in sorted(n for n, k in arity.items() if k == c["n"]):
+                cc = dict(c)
+                cc["id"] = c["id"] + "/" + name
+                cc["parts"] = [[name, 1]] + c["parts"][1:]
+                cases.append(cc)
+        else:
+            cases.append(c)
+    cx.rep.add("polyarg_functions", len([1 for k in arity.values() if 1 <= k <= 3]))
     for c in cases:
         c["class"] = c["fam"]
         c["want"] = c.pop("val")
@@ -358,6 +398,8 @@ def boundary_cases(cx, long_session):
 
 def judge_boundary(cx, cases, rows):
     rep = cx.rep
+    if cx.stdlib is None:
+        cx.stdlib = stdlib_fns_with_body()
     fams = {}
     for case, r in zip(cases, rows):
         rep.add("evaluations", 1)
@@ -378,6 +420,10 @@ def judge_boundary(cx, cases, rows):
                 cx.drift["value although the exact exponent is not representable"] = cx.drift.get("value although the exact exponent is not representable", 0) + 1
             if case["lit"] == "literal" and o == "resolver":
                 cx.drift["documented literal rejected by the parser (%s)" % r.get("m", "")[:40]] = 1
+            continue
+        if case["fam"] == "polyarg" and case["parts"][0][0] in cx.stdlib and (o == "timeout" or o.endswith(":oom") or o.endswith(":stack-overflow")):
+            # a function written in Numbat may recurse without bound on inf / NaN (range(0, inf)): outside the property
+            rep.add("polyarg_unbounded_recursion_not_judged", 1)
             continue
         if o == "timeout":
             cx.recheck.append(("G-classes", case))
